@@ -19,6 +19,8 @@ type Chooser struct {
 	cost    int    // deviations spent so far
 	// Ctx is free for the body's use (per-worker scratch).
 	Ctx any
+
+	shardIndex, shardCount, shardDepth int
 }
 
 // DivergenceError is raised when a replayed prefix does not fit the choice points
@@ -85,6 +87,10 @@ type ExploreOpts struct {
 	Deadline time.Time // zero = none; when hit the walk stops and Complete=false
 	MaxExec  int64     // 0 = unlimited
 	NewCtx   func() any
+	// Sharding across processes: only executions whose first ShardDepth choices hash to
+	// ShardIndex (mod ShardCount) are counted; the body must consult Chooser.Mine() before
+	// recording anything. Prefixes shorter than ShardDepth are executed by every shard.
+	ShardIndex, ShardCount, ShardDepth int
 }
 
 // ExploreStats is what the walk covered.
@@ -128,7 +134,7 @@ func Explore(opts ExploreOpts, body func(c *Chooser)) ExploreStats {
 		}
 		var ex, pts, pruned int64
 		maxTape, maxCost := 0, 0
-		c := &Chooser{Ctx: ctx}
+		c := &Chooser{Ctx: ctx, shardIndex: opts.ShardIndex, shardCount: opts.ShardCount, shardDepth: opts.ShardDepth}
 		flush := func() {
 			mu.Lock()
 			stats.Executions += ex
@@ -184,8 +190,10 @@ func Explore(opts ExploreOpts, body func(c *Chooser)) ExploreStats {
 			c.dev = c.dev[:0]
 			c.cost = 0
 			body(c)
-			ex++
-			pts += int64(len(c.choices))
+			if c.Mine() {
+				ex++
+				pts += int64(len(c.choices))
+			}
 			if len(c.choices) > maxTape {
 				maxTape = len(c.choices)
 			}
@@ -214,6 +222,9 @@ func Explore(opts ExploreOpts, body func(c *Chooser)) ExploreStats {
 					p := make([]int32, i+1)
 					copy(p, c.choices[:i])
 					p[i] = alt
+					if opts.ShardCount > 1 && len(p) >= opts.ShardDepth && shardOf(p, opts.ShardDepth, opts.ShardCount) != opts.ShardIndex {
+						continue // the whole subtree belongs to another shard
+					}
 					local = append(local, p)
 					added++
 				}
@@ -249,4 +260,28 @@ func Explore(opts ExploreOpts, body func(c *Chooser)) ExploreStats {
 	}
 	wg.Wait()
 	return stats
+}
+
+// Mine reports whether this execution belongs to the shard being explored (always true without
+// sharding). It looks at the first ShardDepth choices (missing ones count as 0), so it must be
+// called at the END of the body, when the tape is complete.
+func (c *Chooser) Mine() bool {
+	if c.shardCount <= 1 {
+		return true
+	}
+	return shardOf(c.choices, c.shardDepth, c.shardCount) == c.shardIndex
+}
+
+func shardOf(choices []int32, depth, count int) int {
+	h := uint64(1469598103934665603)
+	for i := 0; i < depth; i++ {
+		v := int32(0)
+		if i < len(choices) {
+			v = choices[i]
+		}
+		h ^= uint64(uint32(v)) + 0x9e3779b97f4a7c15
+		h *= 1099511628211
+	}
+	h ^= h >> 29
+	return int(h % uint64(count))
 }
